@@ -15,6 +15,8 @@ int g = 0;
 empty use(int[] a) { a[0] += 1; }
 empty !dd(int v) { int[] l = [v, 3]; write('D'); !truth_is_defeat(l[0] >= 0); write('x'); }
 empty !d1(int v) { byte[] bb = ['p', 'q']; !dd(v); write(bb); }
+int fin(int v, int w) { return v * 10 + w % 10; }
+int rev(const int[] a) { int[] m = [9, 9, 9, 9]; int t = 0; for (int i = 0; i < a.length; i += 1) { m[i] = a[a.length - 1 - i]; t = t * 10 + m[i]; } return t; }
 empty dumpc(const int[] c) { write('['); write(c[0]); write(','); write(c[1]); write(']'); }
 """
 
@@ -59,6 +61,8 @@ FUNCS = {
     'return': "empty work(int it, int x, int[] can1) {{ {A} if (it >= 0) {{ return; }} write('b'); }}",
     'loopreturn': "empty work(int it, int x, int[] can1) {{ for (int k = 0; k < 3; k += 1) {{ {A} if (k == 1) {{ return; }} write('b'); }} }}",
     'valreturn': "int work(int it, int x, int[] can1) {{ {A} for (int k = 0; k < 2; k += 1) {{ int[] z = [k, it]; if (k == 1) {{ return z[1]; }} }} return 0; }}",
+    'tailcall': "int work(int it, int x, int[] can1) {{ {A} int[] loc = [4, 3, 2, 1]; return fin(rev(loc), it); }}",
+    'tailcall2': "int work(int it, int x, int[] can1) {{ int[] loc = [4, 3, 2, 1]; {A} if (it == 1) {{ return fin(rev(loc), rev(can1)); }} return fin(rev(loc) + rev(loc), it); }}",
     'youtry': "empty @work(int it, int x, int[] can1) {{ try {{ {A} if (it >= 0) {{ return; }} write('b'); }} stop {{ write('s'); }} }}",
     'youtryloop': "empty @work(int it, int x, int[] can1) {{ for (int k = 0; k < 3; k += 1) {{ try {{ {A} if (k == 1) {{ break; }} if (k == 0) {{ continue; }} "
                   "write('b'); }} stop {{ write('s'); }} }} }}",
@@ -83,7 +87,7 @@ def programs():
     for fk, ftpl in FUNCS.items():
         for ak, a in ALLOCS.items():
             f = ftpl.format(A=a)
-            callx = 'write(work(it, x, can1));' if fk == 'valreturn' else ('@work(it, x, can1);' if fk.startswith('you') else 'work(it, x, can1);')
+            callx = 'write(work(it, x, can1));' if fk in ('valreturn', 'tailcall', 'tailcall2') else ('@work(it, x, can1);' if fk.startswith('you') else 'work(it, x, can1);')
             src = (PRE + f + "\nempty @is_you(int n, int x) { int[] can1 = [1, 2]; int[] can2 = [3, 4];\n"
                    f"for (int it = 0; it < n; it += 1) {{ write('('); {callx} write(')'); }}" + TAIL + " }\n")
             out.append((('func:' + fk, ak, 'ret'), src))
